@@ -3,6 +3,8 @@ package sym
 import (
 	"fmt"
 	"os"
+	"os/exec"
+	"sync/atomic"
 	"regexp"
 	"runtime/debug"
 	"strings"
@@ -219,6 +221,7 @@ func runPath(cfg *RunConfig, solver *Solver, prefix []Decision, q *workQueue, st
 	ps.fork = func(p []Decision) { q.push(p) }
 	if cfg.DumpDir != "" {
 		ps.smtDump = dump
+		ps.fallback = func(script string) Result { return fallbackSolve(cfg, script) }
 	}
 	ex := &Exec{PathState: ps, P: cfg.P, globals: map[*ssa.Global]*value{}, mutexes: map[*value]int{}}
 	defer func() {
@@ -328,4 +331,31 @@ func clip(s string, n int) string {
 		return s[:n] + "…"
 	}
 	return s
+}
+
+var fallbackSeq int64
+
+// fallbackSolve asks cvc5 (then z3 5.x) about an obligation the primary solver answered "unknown" to.
+func fallbackSolve(cfg *RunConfig, script string) Result {
+	n := atomic.AddInt64(&fallbackSeq, 1)
+	fn := fmt.Sprintf("%s/fallback-%d-%d.smt2", cfg.DumpDir, os.Getpid(), n)
+	if err := os.WriteFile(fn, []byte("(set-logic ALL)\n"+script), 0o644); err != nil {
+		return Unknown
+	}
+	defer os.Remove(fn)
+	to := cfg.TimeoutMs * 4
+	for _, cmd := range [][]string{
+		{"cvc5", "--lang=smt2", fmt.Sprintf("--tlimit=%d", to), fn},
+		{"z3-new", fmt.Sprintf("-T:%d", to/1000+1), fn},
+	} {
+		out, _ := exec.Command(cmd[0], cmd[1:]...).CombinedOutput()
+		res := strings.TrimSpace(string(out))
+		if strings.HasPrefix(res, "unsat") {
+			return Unsat
+		}
+		if strings.HasPrefix(res, "sat") {
+			return Sat
+		}
+	}
+	return Unknown
 }
